@@ -56,7 +56,20 @@ def norm_event(e):
 def norm_trace(res, inst, settings):
     """settings: dict of per-trace monitor settings derived from the job"""
     c = inst.const
-    evs = [norm_event(e) for e in res["events"] if e["a"] in SEAM]
+    # the status a node records for an execution may differ from the reported one (a PASS slower than usual is recorded as WARN,
+    # plugins/runner.py run_test_node): the retry / stop rules and the sources work on the recorded status
+    log = res["events"]
+    recorded = {}
+    for i, e in enumerate(log):
+        if e["a"] == "endrun" and e.get("s") == "PASS":
+            for f in log[i + 1:]:
+                if f["a"] == "traversed" and f["w"] == e["w"] and f.get("x") == e.get("t"):
+                    if f.get("res") and f["res"][-1] == "WARN":
+                        recorded[i] = "WARN"
+                    break
+                if f["w"] == e["w"] and f["a"] in ("start", "prestart", "bounce", "end"):
+                    break
+    evs = [norm_event(dict(e, s=recorded[i]) if i in recorded else e) for i, e in enumerate(log) if e["a"] in SEAM]
     job = res["job"]
     rp = dict(inst.params)
     if inst.lazy:
